@@ -215,10 +215,10 @@ class Opaque:                    # messages, ZSTs, things the property does not 
 
 
 class Closure:
-    __slots__ = ('key', 'captures')
+    __slots__ = ('key', 'captures', 'creator')
 
-    def __init__(self, key, captures):
-        self.key, self.captures = key, list(captures)
+    def __init__(self, key, captures, creator=None):
+        self.key, self.captures, self.creator = key, list(captures), creator
 
     @property
     def fields(self):
@@ -342,6 +342,7 @@ class Engine:
         self.encoded = {}         # fn name -> MIR lines
         self.models_used = set()
         self._callcache = {}
+        self._closure_cache = {}
         self.statics = {}
         self.depth = 0
         self.max_depth = 400
@@ -981,7 +982,7 @@ class Engine:
         if s.startswith('ZeroSized: '):
             t = s[len('ZeroSized: '):]
             if t.startswith('{closure@'):
-                return Closure(t, [])
+                return Closure(t, [], f.name if f is not None else None)
             return Opaque(t)
         if s == '()':
             return Struct('()', [])
@@ -1075,7 +1076,7 @@ class Engine:
         if k == 'adt':
             return self.adt(f, fr, r, ty)
         if k == 'closure':
-            return Closure(r[1], [self.operand(f, fr, a) for a in r[2]])
+            return Closure(r[1], [self.operand(f, fr, a) for a in r[2]], f.name)
         if k == 'ptrmeta':
             v = self.operand(f, fr, r[1])
             if isinstance(v, Slice):
@@ -1514,6 +1515,8 @@ class Engine:
 
     def type_name_of(self, v, fr=None):
         v = self.deref(v, fr)
+        if isinstance(v, (FnItem, Closure)):
+            return 'fn'
         while isinstance(v, Cell):
             v = v.v
             v = self.deref(v, fr)
@@ -1528,6 +1531,12 @@ class Engine:
         return None
 
     def dyn_call(self, trait, method, args, fr, dty):
+        if trait in ('Fn', 'FnMut', 'FnOnce') and method in ('call', 'call_mut', 'call_once'):
+            fv = self.deref(args[0], fr)
+            while isinstance(fv, Cell):
+                fv = self.deref(fv.v, fr)
+            tup = args[1] if len(args) > 1 else Struct('()', [])
+            return self.call_value(fv, list(tup.fields) if isinstance(tup, Struct) else [tup], fr, dty)
         tn = self.type_name_of(args[0], fr)
         if tn is None:
             hook = self.env.get('dyn_call')
@@ -1557,10 +1566,49 @@ class Engine:
             return self.call_closure(fv, args)
         if isinstance(fv, FnItem):
             return self.do_call(fv.name, args, fr, dty)
+        if isinstance(fv, Struct) and not fv.fields and self.resolve(fv.ty) is not None:
+            return self.do_call(fv.ty, args, fr, dty)          # a fn item printed as a zero-sized constant
         hook = self.env.get('call_value')
         if hook is not None:
             return hook(self, fv, args, fr)
         raise Unsupported('indirect call of %r' % (fv,))
+
+    def closure_body(self, clo):
+        """MIR body of a closure value.  Closure types are keyed by their source span, which is shared by all
+        closures that come from one macro (e.g. do-notation's m!), so prefer the bodies nested in the creator."""
+        ck = (clo.key, clo.creator, len(clo.captures))
+        hit = self._closure_cache.get(ck)
+        if hit is not None:
+            return hit
+        name = None
+        if clo.creator is not None:
+            pre = clo.creator + '::{closure#'
+            cands = []
+            for n, fobj in self.funcs.items():
+                if n.startswith(pre) and '::' not in n[len(pre):].split('}', 1)[1].lstrip('#0123456789') and fobj.params:
+                    t0 = re.sub(r'^&(mut )?', '', fobj.params[0][1])
+                    if t0 == clo.key:
+                        cands.append(n)
+            if len(cands) > 1:
+                def ncap(fobj):
+                    mx = -1
+                    for b in fobj.blocks.values():
+                        for text, _ in b.raw:
+                            for mm in re.finditer(r'\(\*?_1\)?\.(\d+): ', text):
+                                mx = max(mx, int(mm.group(1)))
+                    return mx + 1
+                by_caps = [n for n in cands if ncap(self.funcs[n]) == len(clo.captures)]
+                if len(by_caps) >= 1:
+                    cands = by_caps
+            if len(cands) == 1:
+                name = cands[0]
+            elif len(cands) > 1:
+                raise Unsupported('ambiguous closure body for %s in %s' % (clo.key[-40:], clo.creator))
+        if name is None:
+            name = self.closures.get(clo.key)
+        if name is not None:
+            self._closure_cache[ck] = name
+        return name
 
     def call_closure(self, clo, args, by_ref=None):
         if isinstance(clo, FnItem):
@@ -1572,7 +1620,7 @@ class Engine:
             if hook is not None:
                 return hook(self, clo, args, None)
             raise Unsupported('call of non-closure %r' % (clo,))
-        name = self.closures.get(clo.key)
+        name = self.closure_body(clo)
         if name is None:
             raise Unsupported('closure body not found ' + clo.key)
         f = self.funcs[name]
